@@ -55,7 +55,7 @@ func checkC01(c *fw.Ctx) {
 				ok = true
 			}
 		}
-		c.Check(ok, "2 enforcement-column", "CheckCanonicalJSON dispatches to the canonicalJSONCheck column", c.P.Pos(fn.Pos()), "", "the wrapper does not call the table's canonicalJSONCheck field")
+		c.Expect(ok, "2 enforcement-column", "CheckCanonicalJSON dispatches to the canonicalJSONCheck column", c.P.Pos(fn.Pos()), "", "no call of the table's canonicalJSONCheck field was recognised in the wrapper")
 	}
 
 	// 3. untrusted parsers check the raw input before rewriting
@@ -316,7 +316,7 @@ func checkKeyComparator(c *fw.Ctx, fn *ssa.Function, fam []*ssa.Function, call s
 	}
 	rets := fw.Returns(cmp)
 	if cmpCall == nil || len(rets) != 1 || rets[0].Results[0] != cmpCall.Value() {
-		c.Fail(rule, construct, c.P.Pos(cmp.Pos()), "the comparator is not a single code-point comparison (strings.Compare) of the two keys")
+		c.Undecided(rule, construct, "the comparator is not a single strings.Compare / bytes.Compare / cmp.Compare call on the two keys: its order was not examined")
 		return
 	}
 	a, b := cmpCall.Common().Args[0], cmpCall.Common().Args[1]
